@@ -482,3 +482,112 @@ Proof.
   - apply (fj_ns c HFJ).
   - done.
 Qed.
+
+(* ------------------------------------------------------------------ membership in the class, decided *)
+Definition proc_ok_b (c : config) (pp : proc) : bool :=
+  fj (pr_body0 pp) &&
+  match pr_provs pp with
+  | [pv] => match chan pv with Some k => exists_b c k | None => false end
+  | _ => false
+  end &&
+  forallb (exists_b c) (fcids (pr_body0 pp)).
+
+Definition pair_ok_b (x y : pid * proc) : bool :=
+  cid_eqb x.1 y.1 ||
+  (negb (chan_eqb (self_chan x.2) (self_chan y.2)) && disj_b (fcids (pr_body0 x.2)) (fcids (pr_body0 y.2))).
+
+Definition chan_ok_b (st : chan_st) : bool :=
+  negb (ch_closed st) && match ch_buf st with None => true | Some m => rule_eqb (m_rule m) RCLS end.
+
+Definition fj_cfg_b (c : config) : bool :=
+  let ps := map_to_list (procs c) in
+  forallb (fun x => proc_ok_b c x.2) ps &&
+  forallb (fun x => forallb (pair_ok_b x) ps) ps &&
+  forallb (fun x => chan_ok_b x.2) (map_to_list (chans c)).
+
+Definition fj_funs_b (F : list fundef) : bool :=
+  forallb (fun fd => negb (nilb (fn_params fd)) || (fj (fn_body fd) && nilb (fcids (fn_body fd)))) F.
+
+Lemma disj_b_true l1 l2 : disj_b l1 l2 = true -> forall x, x ∈ l1 -> x ∈ l2 -> False.
+Proof.
+  unfold disj_b. rewrite forallb_forall. intros H x H1 H2.
+  specialize (H x (proj1 (elem_of_list_In _ _) H1)). apply negb_true_iff in H.
+  assert (existsb (cid_eqb x) l2 = true); [|congruence].
+  apply existsb_exists. exists x. split; [by apply elem_of_list_In|].
+  unfold cid_eqb. by destruct (list_eq_dec Nat.eq_dec x x).
+Qed.
+
+Lemma cid_eqb_true (a b : list nat) : cid_eqb a b = true -> a = b.
+Proof. unfold cid_eqb. by destruct (list_eq_dec Nat.eq_dec a b). Qed.
+
+Lemma exists_b_true c k : exists_b c k = true -> is_Some (chans c !! k).
+Proof. unfold exists_b. destruct (chans c !! k); [eauto|done]. Qed.
+
+Theorem fj_cfg_b_sound c : ns_ok c -> fj_cfg_b c = true -> FJ c.
+Proof.
+  intros Hns. unfold fj_cfg_b. rewrite !andb_true_iff, !forallb_forall. intros [[Hp Hpair] Hch].
+  assert (Hp' : forall p pp, procs c !! p = Some pp -> proc_ok_b c pp = true).
+  { intros p pp H. apply (Hp (p, pp)). apply elem_of_list_In. by apply elem_of_map_to_list. }
+  assert (Hpair' : forall p q pp qq, procs c !! p = Some pp -> procs c !! q = Some qq -> pair_ok_b (p, pp) (q, qq) = true).
+  { intros p q pp qq H1 H2. specialize (Hpair (p, pp) (proj1 (elem_of_list_In _ _) (proj2 (elem_of_map_to_list _ _ _) H1))).
+    rewrite forallb_forall in Hpair. apply Hpair. apply elem_of_list_In. by apply elem_of_map_to_list. }
+  split; [done| | | | |].
+  - intros p pp H. specialize (Hp' p pp H). unfold proc_ok_b in Hp'. rewrite !andb_true_iff in Hp'.
+    destruct Hp' as [[H1 H2] _]. split; [done|].
+    destruct (pr_provs pp) as [|pv [|]]; try done. destruct (chan pv) as [k|] eqn:Ek; [|done].
+    exists pv, k. split; [done|]. split; [done|]. by apply exists_b_true.
+  - intros p q pp qq k H1 H2 Hk1 Hk2. specialize (Hpair' p q pp qq H1 H2). unfold pair_ok_b in Hpair'. cbn in Hpair'.
+    apply orb_true_iff in Hpair' as [E|E]; [by apply cid_eqb_true|].
+    apply andb_true_iff in E as [E _]. rewrite Hk1, Hk2 in E. cbn in E. unfold cid_eqb in E.
+    by destruct (list_eq_dec Nat.eq_dec k k).
+  - intros p q pp qq k H1 H2 Hk1 Hk2. specialize (Hpair' p q pp qq H1 H2). unfold pair_ok_b in Hpair'. cbn in Hpair'.
+    apply orb_true_iff in Hpair' as [E|E]; [by apply cid_eqb_true|].
+    apply andb_true_iff in E as [_ E]. destruct (disj_b_true _ _ E k Hk1 Hk2).
+  - intros p pp k H Hk. specialize (Hp' p pp H). unfold proc_ok_b in Hp'. rewrite !andb_true_iff in Hp'.
+    destruct Hp' as [_ H3]. rewrite forallb_forall in H3. apply exists_b_true, H3. by apply elem_of_list_In.
+  - intros k st H. specialize (Hch (k, st) (proj1 (elem_of_list_In _ _) (proj2 (elem_of_map_to_list _ _ _) H))).
+    unfold chan_ok_b in Hch. cbn in Hch. apply andb_true_iff in Hch as [H1 H2]. apply negb_true_iff in H1.
+    split; [done|]. destruct (ch_buf st) as [m|]; [|by left]. right. exists m. split; [done|].
+    by destruct (m_rule m).
+Qed.
+
+Lemma get_function_in F fn n fd : get_function F fn n = Some fd ->
+  In fd F /\ (length (fn_params fd) = n \/ S (length (fn_params fd)) = n).
+Proof.
+  induction F as [|d r IH]; cbn [get_function]; [done|].
+  destruct (String.eqb (fn_name d) fn && _) eqn:E.
+  - intros [= <-]. split; [by left|]. apply andb_true_iff in E as [_ E]. apply orb_true_iff in E as [E|E].
+    + left. by apply Nat.eqb_eq.
+    + right. by apply Nat.eqb_eq.
+  - intros H. destruct (IH H). split; [by right|done].
+Qed.
+
+Theorem fj_funs_b_sound F : fj_funs_b F = true -> fj_funs F.
+Proof.
+  unfold fj_funs_b, fj_funs. rewrite forallb_forall. intros H fn b. unfold call_body. cbn [length].
+  destruct (get_function F fn 0) as [fd|] eqn:E; [|done].
+  apply get_function_in in E as [Hin [Hl|Hl]]; [|done].
+  specialize (H fd Hin). destruct (fn_params fd) as [|? ?] eqn:Ep; [|done]. cbn in H.
+  apply andb_true_iff in H as [H1 H2]. cbn [length Nat.eqb].
+  destruct (fn_explicit fd); intros [= <-]; (split; [done|by apply nilb_nil]).
+Qed.
+
+(* for the initial configuration of a program the namespace hygiene comes for free *)
+Corollary forkjoin_program_determinism (p : program) pick1 pick2 f1 f2 t1 :
+  fj_funs_b (p_funs p) = true -> fj_cfg_b (init_config p) = true ->
+  exec_run f1 pick1 Async (p_types p) (p_funs p) (init_config p) = RQuiescent t1 -> (f1 <= f2)%nat ->
+  exists t2, exec_run f2 pick2 Async (p_types p) (p_funs p) (init_config p) = RQuiescent t2 /\
+             cfg_equiv t2 t1 /\ labels t2 ≡ₚ labels t1.
+Proof.
+  intros HF Hc. apply forkjoin_determinism; [by apply fj_funs_b_sound|]. apply fj_cfg_b_sound; [apply ns_ok_init|done].
+Qed.
+
+Corollary forkjoin_program_async_sync (p : program) pick1 f1 t1 :
+  fj_funs_b (p_funs p) = true -> fj_cfg_b (init_config p) = true ->
+  exec_run f1 pick1 Sync (p_types p) (p_funs p) (init_config p) = RQuiescent t1 ->
+  exists n, forall pick2 f2, (n < f2)%nat ->
+    exists t2, exec_run f2 pick2 Async (p_types p) (p_funs p) (init_config p) = RQuiescent t2 /\ labels t2 ≡ₚ labels t1.
+Proof.
+  intros HF Hc. apply forkjoin_async_sync; [by apply fj_funs_b_sound| |apply bufs_empty_init].
+  apply fj_cfg_b_sound; [apply ns_ok_init|done].
+Qed.
